@@ -855,23 +855,16 @@ func (e *vkExplorer) exploreSetup(st *vkSetup, zi int, truths []vkTruth) {
 
 func vkTierFor(c *vkit.Ctx) vkTier {
 	full := []string{"a", "b", "*", "A", "\x00", "a.b"}
+	one := func(zi int) [][2]int {
+		p := zi % len(vkN3ParamSets)
+		return [][2]int{{p, 0}, {p, 1}, {p, 2}}
+	}
 	if c.Quick() {
 		return vkTier{nCands: 13, maxOwners: 3, alpha: full, alpha3: []string{"a", "b", "*"}, alpha4: []string{"a", "b"},
-			maxSub: 3, polBase: 2, prepVariants: false,
-			n3Variants: func(zi int) [][2]int {
-				p := zi % len(vkN3ParamSets)
-				return [][2]int{{p, 0}, {p, 1}, {p, 2}}
-			}}
+			maxSub: 3, polBase: 2, prepVariants: false, n3Variants: one}
 	}
-	return vkTier{nCands: len(vkCands), maxOwners: 4, alpha: append(full, "c"), alpha3: []string{"a", "b", "*", "A"}, alpha4: []string{"a", "b", "*"},
-		maxSub: 3, polBase: 2, prepVariants: true,
-		n3Variants: func(zi int) [][2]int {
-			var out [][2]int
-			for _, p := range []int{zi % len(vkN3ParamSets), (zi + 2) % len(vkN3ParamSets)} {
-				out = append(out, [2]int{p, 0}, [2]int{p, 1}, [2]int{p, 2})
-			}
-			return out
-		}}
+	return vkTier{nCands: len(vkCands), maxOwners: 4, alpha: append(full, "c"), alpha3: []string{"a", "b", "*"}, alpha4: []string{"a", "b"},
+		maxSub: 3, polBase: 2, prepVariants: true, n3Variants: one}
 }
 
 func TestVerifC02Verifiers(t *testing.T) {
